@@ -60,12 +60,15 @@ PAD_SMALL = [(0, 6), (1, 6), (2, 4), (3, 3), (7, 2), (30, 2), (120, 2), (254, 1)
 PAD_BIG = [(2000, 3), (9000, 2), (32700, 2), (32766, 1), (32767, 1), (32768, 1), (33000, 1), (50000, 1), (63000, 1)]
 FILL = [(0, 6), (1, 5), (2, 4), (5, 3), (20, 2), (42, 1), (43, 1), (60, 1), (200, 1)]
 FAILS = [("error", 5), ("div", 5), ("index", 3), ("longexpr", 3), ("longarr", 2), ("longwrap", 1), ("multi", 3), ("funlit", 3),
-         ("funlit2", 2), ("funlitml", 2)]
+         ("funlit2", 2), ("funlitml", 2), ("macrodef", 2), ("macrouse", 2), ("strml", 2), ("ehfail", 2)]
 CALLS = [("ret", 8), ("assign", 3), ("funlit", 3), ("funlit2", 2), ("funlitml", 2), ("catch", 2), ("multi", 2)]
 CALLS_PLAIN = [("ret", 8), ("assign", 3), ("catch", 2), ("multi", 2)]
 # calls of a function of the same object that do not go through a local call instruction: apply_low (call_other,
 # also from a simul_efun and through efun / simul_efun pointers) and function pointers to the local function
-CALLS_LOCALNAME = [("co_self", 4), ("co_arrow", 2), ("simul", 3), ("fp_local", 3), ("fp_efun", 2), ("fp_simul", 2)]
+CALLS_LOCALNAME = [("co_self", 4), ("co_arrow", 2), ("simul", 3), ("fp_local", 3), ("fp_efun", 2), ("fp_simul", 2),
+                   ("cb_map_fp", 2), ("cb_map_str", 2), ("cb_filter", 1)]   # cb_*: the call is made by an efun (callback)
+WARN_BOOL = ("  x_ = (k == 1) | (k == 2);\n", "Warning:_bitwise_operation_on_boolean_values.")
+WARN_PRAGMA = ("#pragma c18_unknown\n", "Warning:_Unknown_#pragma,_ignored.")
 SIMUL_PROG, SIMUL_OBJ, SIMUL_LINE = "c18/simul_efun.c", "/c18/simul_efun", 4
 
 
@@ -73,12 +76,24 @@ class Gen:
     """builds one program family (child program, optional inherited program, include trees) with a failing
     statement at a recorded position, and the record (`expect` line) of what must be reported"""
 
-    def __init__(self, rng, tag, big=False, thorough=False):
+    def __init__(self, rng, tag, big=False, thorough=False, warn=None, ginc=None):
         self.rng = rng
         self.d = "/c18/%s" % tag
         self.big = big
         self.thorough = thorough
         self.meta = {}
+        # compile-time diagnostics on known lines (`#pragma warnings` + constructs that make the compiler warn)
+        self.warn = rng.chance(1, 3) if warn is None else warn
+        self.ces = []
+        self.ginc = rng.chance(1, 3) if ginc is None else ginc    # run under the GlobalInclude configuration
+
+    def maybe_warn(self, src, toplevel, force=False):
+        if not self.warn or not (force or self.rng.chance(1, 3)):
+            return
+        text, msg = WARN_PRAGMA if toplevel else WARN_BOOL
+        self.ces.append((src.name, src.line, msg))
+        src.text(text)
+        self.meta["ce"] = self.meta.get("ce", 0) + 1
 
     def padding(self, src, allow_big=False):
         r = self.rng
@@ -89,6 +104,7 @@ class Gen:
             n = r.weighted(PAD_SMALL)
         if n:
             src.pad(r.choice(["n", "c"]), n)
+        self.maybe_warn(src, True)
         return n
 
     # -- function bodies ---------------------------------------------------
@@ -107,9 +123,13 @@ class Gen:
                     "simul": 'c18_via(this_object(), "%s", k)' % nxt,
                     "fp_local": 'evaluate((: %s :), k)' % nxt,
                     "fp_efun": 'evaluate((: call_other :), this_object(), "%s", k)' % nxt,
-                    "fp_simul": 'evaluate((: c18_via :), this_object(), "%s", k)' % nxt}[kind]
+                    "fp_simul": 'evaluate((: c18_via :), this_object(), "%s", k)' % nxt,
+                    "cb_map_fp": 'map_array(({ k }), (: %s :))[0]' % nxt,
+                    "cb_map_str": 'map_array(({ k }), "%s", this_object())[0]' % nxt,
+                    "cb_filter": 'sizeof(filter_array(({ k }), (: %s :)))' % nxt}[kind]
             src.text("int %s(int k) {\n" % name)
             src.pad("s", r.weighted(FILL))
+            self.maybe_warn(src, False)
             lo = src.line
             src.text("  return %s + 1;\n" % expr)
             frames.append((name, prog, obj, src.name, lo, lo))
@@ -134,6 +154,7 @@ class Gen:
             return kind == "catch"
         src.text("int %s(int k) {\n" % name)
         src.pad("s", r.weighted(FILL))
+        self.maybe_warn(src, False)
         if r.chance(1, 4):
             src.pad(r.choice(["n", "c"]), r.range(1, 3))
         lo = src.line
@@ -179,11 +200,17 @@ class Gen:
                 frames.append(("<function>", prog, obj, src.name, lo, lo))
             self.meta["fail"] = kind
             return None
+        if kind == "macrodef":
+            # a macro whose DEFINITION spans four physical lines, right in front of the function
+            src.text("#undef C18_DIV\n#define C18_DIV(a, b) \\\n  ((a) \\\n   / \\\n   (b))\n")
+        elif kind == "macrouse":
+            src.text("#undef C18_DIV3\n#define C18_DIV3(a, b, c) ((a) / (b) + (c))\n")
         src.text("int %s(int k) {\n" % name)
         if kind in ("longarr",):
             src.text("  mixed a_;\n")
         nfill = r.weighted(FILL)
         src.pad("s", nfill)
+        self.maybe_warn(src, False, force=bool(self.warn and not self.ces))
         if r.chance(1, 4):
             src.pad(r.choice(["n", "c"]), r.range(1, 3))
         lo = src.line
@@ -191,6 +218,10 @@ class Gen:
         if kind == "error":
             src.text('  error("boom");\n')
             err = "boom"
+        elif kind == "ehfail":
+            # the master's error_handler logs this error and then fails itself (error inside the mudlib error handler)
+            src.text('  error("c18_eh_fail");\n')
+            err = "c18_eh_fail"
         elif kind == "div":
             src.text("  x_ = 10 / k;\n")
         elif kind == "index":
@@ -221,6 +252,14 @@ class Gen:
             self.meta["long"] = n
         elif kind == "multi":
             src.text("  x_ = 7 +\n\n    (10 / k);\n")
+        elif kind == "macrodef":
+            src.text("  x_ = C18_DIV(10, k);\n")
+        elif kind == "macrouse":
+            # the macro's ARGUMENTS span three lines
+            src.text("  x_ = C18_DIV3(10,\n      k,\n      7);\n")
+        elif kind == "strml":
+            # a string literal that spans two lines (the newline is part of the string)
+            src.text('  x_ = strlen("ab\n  cd") / k;\n')
         elif kind == "funlit2":
             src.text("  return evaluate((: evaluate((: 10 / $1 :), $1) + 1 :), k);\n")
         elif kind == "funlitml":
@@ -332,7 +371,7 @@ class Gen:
         bf = ["b%d" % i for i in range(1, nbase + 1)]
         of = ["o%d" % i for i in range(1, r.range(1, 3) + 1)] if other else []
         frames = []
-        pragma = "#pragma save_binary\n" if binary else ""
+        pragma = ("#pragma save_binary\n" if binary else "") + ("#pragma warnings\n" if self.warn else "")
         caught = False
         allfiles = []
 
@@ -398,10 +437,13 @@ class Gen:
             rep = 2
         trig = {"apply": ["apply o1 go", exp] * rep,
                 "reset": ["vapply o1 arm 2"] + ["reset o1", exp] * rep,
-                "hb": ["vapply o1 arm 3", "tick 1", exp] * rep,
+                # one more tick without arming again: an uncaught error switched the heart beat off (no further report),
+                # a caught one did not (the same error is reported again)
+                "hb": ["vapply o1 arm 3", "tick 1", exp] * rep + (["tick 1", exp] if caught else ["tick 1"]),
                 "callout": ["vapply o1 arm 4", "tick 2", exp, exp],
                 "clone": ["clone o5 %s/m" % d, exp] * rep}[via]
         lines = [s.cmd() for s in allfiles]
+        lines += ["expectce file=%s line=%d text=%s" % c for c in self.ces]
         loads = (["load o3 %s/base" % d] if inherit else []) + (["load o2 %s/other" % d] if other else []) + \
             ["load o1 %s/m" % d]
         dumps = ["dump o1"] + (["dump o2"] if other else [])
@@ -410,14 +452,18 @@ class Gen:
             # every program of the family is dropped and comes back from its saved binary
             lines += ["unload o1"] + (["unload o2"] if other else []) + (["unload o3"] if inherit else [])
             lines += loads + trig + dumps
-        self.meta.update({"via": via, "rep": rep})
+        if self.ginc:
+            lines = ["mode ginc"] + lines
+        self.meta.update({"via": via, "rep": rep, "ginc": bool(self.ginc)})
         self.meta.update({"depth": depth, "inherit": inherit, "binary": binary, "caught": caught, "other": bool(other),
                           "override": bool(override), "maxline": max(s.line for s in allfiles)})
         return lines
 
 
-def case_init(tag, pad=3, funcs=0):
-    """failing expression in a global variable initialiser (runs in __INIT while the object is loaded)"""
+def case_init(tag, pad=3, funcs=0, sameline=False):
+    """failing expression in a global variable initialiser (runs in __INIT while the object is loaded); `sameline`: the
+    initialiser is on the line on which the last function in front of it ends (the line counters of the two code
+    blocks then hold the SAME value)"""
     d = "/c18/%s" % tag
     m = Src("%s/m.c" % d)
     m.text("int x_;\nint z_;\nvoid set_oid(string s) {}\n")
@@ -425,7 +471,13 @@ def case_init(tag, pad=3, funcs=0):
         m.text("int h%d(int k) {\n  x_ = k;\n  return x_ + %d;\n}\n" % (i, i))
     m.pad("n", pad)
     ln = m.line
-    m.text("mixed g_ = 10 / z_;\nint go() { return 1; }\n")
+    if sameline:
+        m.text("int hs(int k) { x_ = k; return x_ + 1; } ")
+    m.text("mixed g_ = 10 / z_;\n")
+    if sameline == 2:
+        # ... and the same again on the next line (the failing initialiser is the FIRST one)
+        m.text("int ht(int k) { x_ = k; return x_ + 2; } mixed g2_ = 7 + x_;\n")
+    m.text("int go() { return 1; }\n")
     p, o = "%s/m.c" % d.lstrip("/"), "%s/m" % d
     exp = "expect kind=plain phase=load file=%s lines=%d-%d program=%s object=%s trace=#global_init#@%s@%s@%s@%d-%d" % (
         p, ln, ln, p, o, p, o, p, ln, ln)
@@ -538,20 +590,202 @@ def case_multi_include(tag, variant, rng=None):
     return [f.cmd() for f in files] + ["load o1 %s/m" % d, "apply o1 go", "dump o1", exp]
 
 
+def case_bigtable(tag, nfun, nlines, extra=0, binary=True, stmt="  k++;\n", nincl=0):
+    """many short statements: `nfun` functions of `nlines` lines `k++;` (3 bytes of code and one 3 byte run each) plus
+    `extra` more such lines in go(): the line tables (`file_info[0]` = their size in bytes, an unsigned short) grow as
+    fast as the code (`program_size`, an unsigned short too); the failing statement is the last one of the program"""
+    d = "/c18/%s" % tag
+    m = Src("%s/m.c" % d)
+    m.text(("#pragma save_binary\n" if binary else "") + "int x_;\nvoid set_oid(string s) {}\n")
+    e = Src("%s/e.h" % d)
+    e.text("// e\n")
+    m.text('#include "e.h"\n' * nincl)      # every inclusion adds two file_info segments (8 bytes) and no code
+    for i in range(nfun):
+        m.text("int h%d(int k) {\n" % i)
+        m._flush()
+        m.toks.append(hx(stmt * nlines))
+        m.line += nlines
+        m.text("  return k;\n}\n")
+    m.text("int go(int k) {\n")
+    if extra:
+        m._flush()
+        m.toks.append(hx(stmt * extra))
+        m.line += extra
+    ln = m.line
+    m.text("  x_ = 10 / (k - k);\n  return 0;\n}\n")
+    p, o = d.lstrip("/") + "/m.c", d + "/m"
+    exp = "expect kind=plain file=%s lines=%d-%d program=%s object=%s trace=go@%s@%s@%s@%d-%d" % (p, ln, ln, p, o, p, o, p, ln, ln)
+    run = ["load o1 %s/m" % d, "apply o1 go", exp, "dump o1"]
+    return [m.cmd()] + ([e.cmd()] if nincl else []) + run + (["unload o1"] + run if binary else [])
+
+
+def case_manyruns(tag, nlines, per=400, tail=0, binary=False):
+    """a very long source with very little code per line: array literals with one element per line (`  z,` = about two
+    bytes of code and one 3 byte run each), `per` lines per function (the parser's stack limits one list).  With more
+    than about 21 800 such lines the line tables are larger than 65535 bytes (`file_info[0]`, their size, is an
+    unsigned short) while the code stays far below 64 KB.  The failing statement is the LAST code of the program
+    (`tail` more element lines in front of it inside go()), i.e. behind every run."""
+    d = "/c18/%s" % tag
+    m = Src("%s/m.c" % d)
+    m.text(("#pragma save_binary\n" if binary else "") + "int x_;\nvoid set_oid(string s) {}\n")
+    i = 0
+    fn = 0
+    while i < nlines:
+        k = min(per, nlines - i)
+        m.text("mixed *pad%d(int z) { return ({\n" % fn)
+        m._flush()
+        m.toks.append(hx("  z,\n" * k))
+        m.line += k
+        m.text("}); }\n")
+        i += k
+        fn += 1
+    m.text("int go(int k) {\n  mixed *t_;\n")
+    if tail:
+        m.text("  t_ = ({\n")
+        m._flush()
+        m.toks.append(hx("  k,\n" * tail))
+        m.line += tail
+        m.text("  });\n")
+    ln = m.line
+    m.text("  x_ = 10 / k;\n  return 0;\n}\n")
+    p, o = d.lstrip("/") + "/m.c", d + "/m"
+    exp = "expect kind=plain file=%s lines=%d-%d program=%s object=%s trace=go@%s@%s@%s@%d-%d" % (p, ln, ln, p, o, p, o, p, ln, ln)
+    run = ["load o1 %s/m" % d, "apply o1 go", exp, "dump o1"]
+    return [m.cmd()] + run + (["unload o1"] + run if binary else [])
+
+
+def case_deep_include(tag, depth, rng=None, refuse=False):
+    """include chain m.c -> d1.h -> ... -> d<depth>.h; function f<i> is defined in d<i>.h BEHIND the nested #include
+    (so every level is resumed after a pop) and calls f<i+1>; the deepest one fails.  With `refuse` the chain is one
+    level deeper than the lexer accepts (MAX_INCLUDE_DEPTH): the compile error must name the directive's line"""
+    d = "/c18/%s" % tag
+    p, o = "%s/m.c" % d.lstrip("/"), "%s/m" % d
+    pad = (lambda src: src.pad(rng.choice(["n", "c"]), rng.range(0, 9))) if rng else (lambda src: None)
+    m = Src("%s/m.c" % d)
+    m.text("int x_;\nvoid set_oid(string s) {}\n" + "".join("int f%d(int k);\n" % i for i in range(1, depth + 1)))
+    hs = [Src("%s/d%d.h" % (d, i)) for i in range(1, depth + 1)]
+    files = [m] + hs
+    frames = {}
+    incl_line = {}
+    for i, src in enumerate(files):
+        if i:
+            src.text("// level %d\n" % i)
+        pad(src)
+        if i < depth:
+            incl_line[i] = src.line
+            src.text('#include "d%d.h"\n' % (i + 1))
+    # bodies behind the includes, deepest first in compilation order is irrelevant: each file is written completely
+    for i, src in enumerate(files):
+        pad(src)
+        name = "go" if i == 0 else "f%d" % i
+        src.text("int %s(int k) {\n" % name)
+        ln = src.line
+        if i < depth:
+            src.text("  return f%d(k) + 1;\n}\n" % (i + 1))
+        else:
+            src.text("  x_ = 10 / k;\n  return x_;\n}\n")
+        frames[i] = (name, p, o, src.name, ln, ln)
+    if refuse:
+        top = files[depth - 1]
+        return [f.cmd() for f in files] + ["load o1 %s/m" % d,
+                "expectce file=%s line=%d text=Maximum_include_depth_exceeded" % (top.name, incl_line[depth - 1])]
+    fr = [frames[i] for i in range(depth + 1)]
+    last = fr[-1]
+    exp = "expect kind=plain file=%s lines=%d-%d program=%s object=%s trace=%s" % (
+        last[3], last[4], last[5], p, o, "|".join("%s@%s@%s@%s@%d-%d" % f for f in fr))
+    return [f.cmd() for f in files] + ["load o1 %s/m" % d, "apply o1 go", exp, "dump o1"]
+
+
+def case_longname(tag, n=250, include=False):
+    """a program (or an included file) whose path is longer than the 256 byte buffer get_line_number() used to have"""
+    d = "/c18/%s" % tag
+    name = "m" * n
+    m = Src("%s/%s.c" % (d, name) if not include else "%s/m.c" % d)
+    m.text("int x_;\nvoid set_oid(string s) {}\n")
+    files = [m]
+    src = m
+    if include:
+        h = Src("%s/%s.h" % (d, "h" * n))
+        h.text("// long header name\n")
+        m.text('#include "%s.h"\n' % ("h" * n))
+        files.append(h)
+        src = h
+    src.text("int go(int k) {\n")
+    ln = src.line
+    src.text("  x_ = 10 / k;\n  return 0;\n}\n")
+    p, o = m.name, m.path[:-2]
+    exp = "expect kind=plain file=%s lines=%d-%d program=%s object=%s trace=go@%s@%s@%s@%d-%d" % (src.name, ln, ln, p, o, p, o, src.name, ln, ln)
+    return [f.cmd() for f in files] + ["load o1 %s" % o, "apply o1 go", exp, "dump o1"]
+
+
+def case_toolarge(tag, nfun=45, nstmt=190):
+    """more than 65535 bytes of code (nfun functions of nstmt filler statements, 8 bytes each): function addresses,
+    program_size and the offsets find_line works with are 16 bit, so the compiler has to refuse the program"""
+    d = "/c18/%s" % tag
+    m = Src("%s/m.c" % d)
+    m.text("int x_;\nvoid set_oid(string s) {}\n")
+    for i in range(nfun):
+        m.text("int h%d(int k) {\n" % i)
+        m.pad("s", nstmt)
+        m.text("  return k;\n}\n")
+    m.text("int go(int k) {\n  x_ = 10 / (k - k);\n  return 0;\n}\n")
+    return [m.cmd(), "load o1 %s/m" % d, "expectce file=%s line=-1 text=Program_too_large" % m.name]
+
+
+def case_overlap(tag, where="main", pad=0):
+    """compile-time ERROR whose text carries two decoded positions: `Overlapping cases: <file>:<line> and <file>:<line>.`
+    (prepare_cases decodes the absolute lines of both case labels against the file_info table written SO FAR, after an
+    extra save_file_info); the switch is in the main file or in a header included after another header"""
+    d = "/c18/%s" % tag
+    m = Src("%s/m.c" % d)
+    m.text("int x_;\nvoid set_oid(string s) {}\n")
+    files = [m]
+    src = m
+    if where != "main":
+        a = Src("%s/a.h" % d)
+        a.text("// a\n")
+        a.pad("n", 7 + pad)
+        a.text("int fa(int k) { return k; }\n")
+        b = Src("%s/b.h" % d)
+        b.text("// b\n")
+        m.pad("n", 2)
+        m.text('#include "a.h"\n')
+        m.pad("c", 3)
+        m.text('#include "b.h"\n')
+        files += [a, b]
+        src = b
+    src.pad("n", pad)
+    src.text("int go(int k) {\n  switch (k) {\n")
+    la = src.line
+    src.text("    case 1..5:\n      return 1;\n")
+    src.pad("n", 1 + pad % 3)
+    lb = src.line
+    src.text("    case 3..7:\n      return 2;\n  }\n  return 0;\n}\n")
+    if where != "main":
+        m.text("int after(int k) { return k; }\n")
+    text = "Overlapping_cases:_%s:%d_and_%s:%d." % (src.name, lb, src.name, la)
+    return [f.cmd() for f in files] + ["load o1 %s/m" % d, "expectce file=%s line=-1 text=%s" % (src.name, text)]
+
+
 class C18(Prop):
     id = "C18"
     no_shrink = True   # cases are reported exactly as generated (lines depend on each other)
     title = "Runtime errors are reported at the right file and line with a correct trace"
-    lean_modules = ["NV.C18.Props", "NV.C18.Witness", "NV.C18.SourceTexts"]
+    lean_modules = ["NV.C18.Props", "NV.C18.PropsCompile", "NV.C18.PropsDump", "NV.C18.PropsOracle", "NV.C18.PropsInit", "NV.C18.PropsLex", "NV.C18.PropsBound", "NV.C18.Witness", "NV.C18.SourceTexts",
+                    "NV.C18.SourceTexts2"]
     theorems = ["NV.C18.line_roundtrip_raw", "NV.C18.line_roundtrip", "NV.C18.long_statement_ok",
                 "NV.C18.file_roundtrip", "NV.C18.file_roundtrip_ids", "NV.C18.file_roundtrip_partial",
                 "NV.C18.fresh_idsOf", "NV.C18.trace_order",
                 "NV.C18.runEms_li", "NV.C18.translateAbs_at", "NV.C18.widths_agree",
                 "NV.C18.pass1Continues_iff", "NV.C18.scanContinues_iff", "NV.C18.split_agrees",
-                "NV.C18.apply_paths_store_table_index", "NV.C18.apply_frame_named", "NV.C18.source_statements_agree"]
+                "NV.C18.apply_paths_store_table_index", "NV.C18.apply_frame_named", "NV.C18.source_statements_agree",
+                "NV.C18.compile_roundtrip", "NV.C18.abs_pos", "NV.C18.abs_mono",
+                "NV.C18.frame_kinds_exhaustive", "NV.C18.dump_trace_matches_svalue_trace", "NV.C18.dtText_spec",
+                "NV.C18.locText_of_ok", "NV.C18.dump_trace_args_lines", "NV.C18.dump_trace_ret_heart_beat",
+                "NV.C18.lex_push_agrees", "NV.C18.lex_pop_agrees", "NV.C18.lex_final_agrees", "NV.C18.node_line_agrees", "NV.C18.translate_eq_positions", "NV.C18.init_block_roundtrip", "NV.C18.placeNotes_runFrom", "NV.C18.findRun_append_out", "NV.C18.file_roundtrip_global_include", "NV.C18.scan_unbounded", "NV.C18.scan_bound_harmless", "NV.C18.size_field_exact", "NV.C18.psizeRejects_iff", "NV.C18.pass2_agrees", "NV.C18.source_statements_agree2"]
     witness_theorems = ["NV.C18.file_roundtrip_Full_false", "NV.C18.line_roundtrip_Full_false",
                         "NV.C18.reinclude_wrong", "NV.C18.reinclude_repaired", "NV.C18.wide_wrong", "NV.C18.signed_short_wrong",
-                        "NV.C18.init_block_only_noted", "NV.C18.init_replay"]
+                        "NV.C18.init_block_only_noted", "NV.C18.init_replay", "NV.C18.heart_beat_ret_before_fix", "NV.C18.bounded_scan_fails_above_64k"]
     consts = [("aProgram", "A_PROGRAM"), ("aInitializer", "A_INITIALIZER"),
               ("frameFunction", "FRAME_FUNCTION"), ("frameFunp", "FRAME_FUNP"), ("frameCatch", "FRAME_CATCH"),
               ("frameFake", "FRAME_FAKE"), ("frameMask", "FRAME_MASK"),
@@ -567,38 +801,57 @@ class C18(Prop):
     search_n = 300
     design_ref = "5/C18"
     technique = ("Lean 4 proof (encoder/decoder round trip by induction over emission sequences and include layouts, "
-                 "control-stack simulation) + translator-generated constants + model/implementation correspondence on "
-                 "dumped tables, compiler events and the control stack")
-    level_text = ("Lean 4 theorems about an executable model of the line-number machinery (switch_to_line run encoder, "
-                  "save_file_info / #include push and pop, find_line scan, translate_absolute_line, push/pop_control_stack, "
-                  "get_svalue_trace): line_roundtrip and long_statement_ok for all emission sequences and offsets, "
-                  "file_roundtrip for all include layouts without a repeated file, trace_order for all call/return "
-                  "sequences; tied to the C code on every run: the model encoder replays the compiler's hook events and "
-                  "must reproduce the real tables byte for byte, the model decoder must agree with the real "
-                  "get_line_number on every code offset of every dumped program, the model trace assembly must agree "
-                  "with what the master's error_handler receives; the specification oracle compares every report with "
-                  "the generator's record of where the failing statement is")
-    level_note = ("trusted: Lean kernel; extract.py; the correspondence harness (differential, generated programs only); "
-                  "proved with side conditions: absolute lines < 2^16 (witness beyond, finding C18-F3), no header "
-                  "included twice (witness, finding C18-F4); which line the code generator attributes to a parse node "
-                  "is compared, not proved; code of global variable initialisers has no line info (finding C18-F1)")
+                 "end-to-end composition compile_roundtrip, control-stack simulation, log text vs mapping trace) + "
+                 "translator-generated constants and loop guards + model/implementation correspondence on dumped tables, "
+                 "compiler events, the control stack and the captured dump_trace log")
+    level_text = ("Lean 4 theorems about an executable model of the line-number machinery (switch_to_line run encoder incl. the "
+                  "__INIT replay, save_file_info / #include push and pop / global include, find_line scan and program_size "
+                  "test, translate_absolute_line both passes, push/pop_control_stack, get_svalue_trace, dump_trace text, "
+                  "return value and argument-line structure): compile_roundtrip (for every lexer event sequence and every "
+                  "emission sequence in code order, find_line on the finished tables returns the file and line of the "
+                  "lexer position of the parse node, every offset), line_roundtrip, long_statement_ok, init_block_roundtrip, "
+                  "file_roundtrip for all include layouts (repeated and recursive includes, global include), "
+                  "translate_eq_positions (decoder = oracle positions on every line of every table), trace_order, "
+                  "apply_frame_named, dump_trace_matches_svalue_trace; tied to the C code on every run: loop guards, "
+                  "program_size test, second pass, widths and frame kinds are transcribed from the source, 22 source regions "
+                  "are compared as text; the model encoder replays the compiler's hook events and must reproduce the real "
+                  "tables byte for byte, the model decoder must agree with the real get_line_number on every code offset and "
+                  "with translate_absolute_line on every absolute line of every dumped program, the model trace assembly "
+                  "and the model dump_trace must agree with what the master's error_handler receives and with the captured "
+                  "log; the specification oracle compares every report (mapping, log text, compile-time diagnostics) with "
+                  "the generator's record of where the statement is")
+    level_note = ("trusted: Lean kernel; extract.py and the regex transcription in props/c18.py; the correspondence harness "
+                  "(differential, generated programs only); proved with size conditions only: absolute lines, program "
+                  "strings and code bytes < 2^16 (witness beyond 2^16 lines: open finding C18-F3; beyond 2^16 code bytes the "
+                  "compiler now refuses the program, fix C18-F6); which line the code generator attributes to a parse node "
+                  "and the line the compiler reports a diagnostic at are compared with the generator's record, not proved; "
+                  "the oracle clauses over strings (J1, J7, J8) are checked on real runs, their data-level counterparts are "
+                  "proved")
     rule = ("cases = corpus + known-finding inputs + boundary list (statement code of exactly 200..766 bytes, failing "
             "statement in every slot of a 3 level include tree, 253..64000 lines in front, inherited program, function "
-            "literal, multi-line and long statements, saved binary) + seeded random program families (1-4 child "
+            "literal, multi-line and long statements, macros and string literals spanning lines, saved binary, include "
+            "chains of depth 5 / 31 / 32, global include configuration, compile-time warnings and errors on known lines, "
+            "12 KB program, program beyond 65535 bytes) + seeded random program families (1-4 child "
             "functions, 0-3 inherited functions, include depth 0-3 each, call styles return/assign/function "
-            "literal/catch/multi-line, 8 failing statement kinds, paddings of 0..63000 blank/comment lines and 0..200 "
+            "literal/catch/multi-line, 13 failing statement kinds, paddings of 0..63000 blank/comment lines and 0..200 "
             "filler statements, #pragma save_binary reload of every program of the family; every scenario runs 1-3 times in "
             "one driver (apply cache miss and hit paths) and is started by an apply, reset_object, a heart beat, a call_out "
             "or create() of a clone; next function reached by local call, ::, call_other, ->, simul_efun, function "
-            "pointers (literal, nested, multi-line, local function, efun, simul_efun), another object; files end with / "
+            "pointers (literal, nested, multi-line, local function, efun, simul_efun), efun callbacks (map_array, "
+            "filter_array), another object; files end with / "
             "without newline, blank lines, code on the last line, one-line includes; headers included repeatedly / "
-            "recursively; global initialisers); a case is non-trivial when its trace has >= 2 lines; "
+            "recursively; global initialisers, also on the line a function ends on; a third of the families under the "
+            "GlobalInclude configuration and with #pragma warnings + provoked diagnostics; thorough: a 64.6 KB program with "
+            "more than 64 KB of line tables); a case is non-trivial when its trace has >= 2 lines; "
             "distinct = distinct canonical implementation trace")
     not_covered = ["which source line the parser attributes to a parse node (LALR look-ahead may move it inside the "
                    "statement; the oracle accepts any line of the statement's extent)",
-                   "dump_trace()'s textual log output (same get_line_number calls; only the mapping handed to the master is compared)",
-                   "programs larger than 65535 bytes / line tables larger than 64 KB (program_size, file_info[0] are 16 bit)",
-                   "MAX_INCLUDE_DEPTH overflow and GLOBAL_INCLUDE_FILE"]
+                   "argument and local variable VALUES printed by dump_trace with ArgumentsInTrace / LocalVariablesInTrace "
+                   "(svalue_to_string); only which lines are printed for which frame is modelled",
+                   "an error raised while the driver itself prints a trace (in_error path) and fatal(); errors inside the master's "
+                   "error handler and the heart-beat switch-off are observed only (no crash, report counts)",
+                   "more than 65535 absolute lines in one compilation unit (open finding C18-F3)",
+                   "the text of compile-time messages other than file and line (J8 fixes the first words only)"]
 
     LEAN_OP = {">": ">", "<": "<", ">=": "≥", "<=": "≤", "==": "=", "!=": "≠"}
 
@@ -671,6 +924,92 @@ class C18(Prop):
             ("srcPushControl", L(R("src/frame.c"), "void push_control_stack (int frkind) {", "csp->pc = pc;", r"csp", "frame:push_control_stack")),
         ]
 
+    LEXVARS = {"current_line": "cur", "current_line_saved": "saved", "current_line_base": "base",
+               "current_file_id": "fid", "p->line": "pline", "is->line": "isline", "p->file_id": "pfid",
+               "is->file_id": "isfid"}
+
+    def _cexpr(self, e, site):
+        """a C integer expression over the lexer counters -> Lean (identifiers mapped, only + - ( ) and literals)"""
+        toks = re.findall(r"[A-Za-z_][A-Za-z_0-9]*(?:->[A-Za-z_]+)?|\d+|[-+()]", e)
+        if "".join(toks) != re.sub(r"\s+", "", e):
+            raise X.TieBroken(site, "expression not understood: %s" % e)
+        out = []
+        for t in toks:
+            if t in self.LEXVARS:
+                out.append(self.LEXVARS[t])
+            elif re.match(r"^\d+$|^[-+()]$", t):
+                out.append(t)
+            else:
+                raise X.TieBroken(site, "unknown identifier %s in %s" % (t, e))
+        return " ".join(out)
+
+    def _lex_steps(self, name, lines, site, params, result):
+        """the statement list of one lexer region as a Lean function: assignments to the counters are applied in source
+        order (`let x := ...` shadows), `save_file_info (id, n)` records what is written to file_info"""
+        body = []
+        for ln in lines:
+            m = re.match(r"^save_file_info \((.+?), (.+)\)$", ln)
+            if m:
+                body.append("let sfid := %s" % self._cexpr(m.group(1), site))
+                body.append("let scount := %s" % self._cexpr(m.group(2), site))
+                continue
+            m = re.match(r"^([A-Za-z_>\-]+) (=|\+=|-=) (.+)$", ln)
+            if m and m.group(1) in self.LEXVARS:
+                v = self.LEXVARS[m.group(1)]
+                rhs = m.group(3)
+                if re.match(r"^add_program_file \(", rhs):
+                    body.append("let %s := newfid" % v)
+                    continue
+                e = self._cexpr(rhs, site)
+                body.append("let %s := %s" % (v, e if m.group(2) == "=" else "%s %s (%s)" % (v, m.group(2)[0], e)))
+                continue
+            m = re.match(r"^([A-Za-z_>\-]+)(\+\+|--)$", ln)
+            if m and m.group(1) in self.LEXVARS:
+                v = self.LEXVARS[m.group(1)]
+                body.append("let %s := %s %s 1" % (v, v, m.group(2)[0]))
+                continue
+            if re.match(r"^handle_include \(", ln):
+                continue
+            raise X.TieBroken(site, "statement not understood: %s" % ln)
+        return ("def %s %s : %s :=\n  %s\n  %s" % (name, " ".join("(%s : Int)" % p for p in params),
+                                                    " × ".join(["Int"] * len(result)), "\n  ".join(body),
+                                                    "(" + ", ".join(result) + ")"))
+
+    def lexer_arithmetic(self):
+        """the line bookkeeping of `#include` (directive + handle_include), of the include pop and of the final segment,
+        transcribed statement by statement (-> NV.Gen.C18.lexPushGen / lexPopGen / lexFinalGen)"""
+        st = dict(self.source_statements())
+        push = st["srcIncludeDirective"] + st["srcHandleInclude"]
+        return [
+            self._lex_steps("lexPushGen", push, "lex:include-push", ["cur", "saved", "base", "fid", "newfid"],
+                            ["sfid", "scount", "isline", "isfid", "cur", "saved", "base", "fid"]),
+            self._lex_steps("lexPopGen", st["srcIncludePop"], "lex:include-pop", ["cur", "saved", "base", "fid", "pline", "pfid"],
+                            ["sfid", "scount", "cur", "saved", "base", "fid"]),
+            self._lex_steps("lexFinalGen", [l for l in st["srcFinalProgram"] if l.startswith("save_file_info")], "icode:final",
+                            ["cur", "saved", "fid"], ["sfid", "scount"]),
+            "def nodeLineGen (cur : Int) (base : Int) : Int := %s" % self._cexpr(
+                re.match(r"^next_node->line = \(short\)\((.+)\)$", st["srcNodeLine"][0]).group(1)
+                if re.match(r"^next_node->line = \(short\)\((.+)\)$", st["srcNodeLine"][0]) else "?", "parse_trees:new_node"),
+        ]
+
+    def source_statements2(self):
+        """regions tied in the extend round (frozen copies in NV/C18/SourceTexts2.lean)"""
+        R = lambda *p: open(os.path.join(E.REPO, *p)).read()
+        sim, icode, frame = R("src/simulate.c"), R("lib/lpc/program/icode.c"), R("src/frame.c")
+        L = self._lines
+        ansi = lambda ls: [re.sub(r'" (YEL|NOR|CYN|HIY|HIC) "', "", l) for l in ls]
+        return [
+            ("srcDumpTrace", ansi(L(sim, "char* dump_trace (int how) {", "fflush (current_log_file);",
+                                    r"log_message \(NULL, \"\\t\"|get_line_number|get_trace_details|num_arg =|num_local =|ret =|strcmp|for \(p|case FRAME|switch|if \(\(how|if \(current_prog|if \(csp|return",
+                                    "simulate:dump_trace"))),
+            ("srcTraceDetails", L(sim, "static void get_trace_details (", "ftd->num_local = func_entry->def.num_local;", None, "simulate:get_trace_details")),
+            ("srcGetLineNumber", L(sim, "char* get_line_number (const char *p, const program_t * progp) {", "return buf;\n}", None, "simulate:get_line_number")),
+            ("srcPopControl", L(frame, "void pop_control_stack () {", "fp = csp->fp;", r"^(current_object|current_prog|pc) =", "frame:pop_control_stack")),
+            ("srcSetupFrame", sorted(set(L(frame, "compiler_function_t* setup_new_frame (int index) {", "\n}\n", r"fr\.table_index", "frame:setup_new_frame") +
+                                         L(frame, "compiler_function_t* setup_inherited_frame (int index) {", "\n}\n", r"fr\.table_index", "frame:setup_inherited_frame")))),
+            ("srcInheritedInit", L(icode, "\ni_generate_inherited_init_call (int index, int f)", "ins_byte (F_CALL_INHERITED);", r"switch_to_line", "icode:inherited_init")),
+        ]
+
     def gen_extra(self, ctx, bdir):
         """the guards of the three scan loops, transcribed from the source (regex over the function bodies)"""
         prog = open(os.path.join(E.REPO, "lib/lpc/program.c")).read()
@@ -681,6 +1020,23 @@ class C18(Prop):
         g1, c1 = self._loop_guard(first, r"line_tmp", r"\*\s*p1", "translate_absolute_line:pass1")
         fb = self._body(sim, "static int find_line", "find_line")
         g2, c2 = self._loop_guard(fb, r"offset", r"\*\s*lns", "find_line:scan")
+        # find_line: is the walk over the runs bounded by an end pointer, and where does that pointer come from?
+        uses_end = re.search(r"lns_end|file_info\s*\[\s*0\s*\]", fb)
+        m_end = re.search(r"lns_end\s*=\s*\(unsigned char \*\)\s*progp->file_info\s*\+\s*progp->file_info\s*\[\s*0\s*\]\s*;", fb)
+        m_chk = re.search(r"lns\s*\+=\s*3\s*;\s*if\s*\(\s*lns\s*>=\s*lns_end\s*\)\s*return\s+4\s*;", re.sub(r"/\*.*?\*/", "", fb, flags=re.S))
+        if uses_end and not (m_end and m_chk):
+            raise X.TieBroken("find_line:scan-bound", "find_line uses an end pointer / file_info[0] in a shape that is not understood")
+        scan_bounded = bool(m_end and m_chk)
+        # find_line: `if (offset > (int) progp->program_size)` => "(no line numbers)"
+        mps = re.search(r"if\s*\(\s*offset\s*(<=|>=|==|!=|<|>)\s*\(int\)\s*progp->program_size\s*\)", fb)
+        if not mps:
+            raise X.TieBroken("find_line:program_size", "the test of the offset against program_size no longer has the shape if (offset OP (int) progp->program_size)")
+        # translate_absolute_line, second pass: `if (p2[1] == file) line_tmp += *p2;`
+        second = tb.split("p2 = file_info")[1] if "p2 = file_info" in tb else ""
+        mp2 = re.search(r"if\s*\(\s*p2\s*\[\s*1\s*\]\s*(<=|>=|==|!=|<|>)\s*file\s*\)\s*line_tmp\s*(\+=|-=)\s*\*\s*p2\s*;", second)
+        mw2 = re.search(r"while\s*\(\s*p2\s*(<=|>=|==|!=|<|>)\s*p1\s*\)", second)
+        if not (mp2 and mw2):
+            raise X.TieBroken("translate_absolute_line:pass2", "the second pass no longer has the shape while (p2 OP p1) { if (p2[1] OP file) line_tmp += *p2; p2 += 2; }")
         sb = self._body(icode, "static void switch_to_line", "switch_to_line")
         m = re.search(r"while\s*\(\s*sz\s*(<=|>=|==|!=|<|>)\s*(\d+)\s*\)", sb)
         m2 = re.findall(r"\*p\+\+\s*=\s*(\d+)\s*;", sb)
@@ -708,13 +1064,26 @@ class C18(Prop):
         out.append("def pass1Continues (a : Int) (b : Int) : Bool := decide (%s)" % g1)
         out.append("/-- C (src/simulate.c, find_line): `%s` -/" % c2)
         out.append("def scanContinues (a : Int) (b : Int) : Bool := decide (%s)" % g2)
+        out.append("/-- C (src/simulate.c, find_line): does the walk over the runs stop at the end pointer `(unsigned char *) file_info +\n"
+                   "    file_info[0]` (`if (lns >= lns_end) return 4;` after every `lns += 3`)?  %s -/"
+                   % ("YES: " + m_end.group(0) if scan_bounded else "no such test in the source"))
+        out.append("def scanBounded : Bool := %s" % ("true" if scan_bounded else "false"))
+        out.append("/-- C (src/simulate.c, find_line): `%s` — is the offset rejected (\"(no line numbers)\")? -/" % mps.group(0))
+        out.append("def psizeRejects (a : Int) (b : Int) : Bool := decide (a %s b)" % self.LEAN_OP[mps.group(1)])
+        out.append("/-- C (lib/lpc/program.c, second pass of translate_absolute_line): `%s` inside `%s`: does an earlier segment of\n"
+                   "    file `a` count for file `b`, how is it applied, and which segments are visited (all in front of the one found) -/" % (mp2.group(0), mw2.group(0)))
+        out.append("def pass2Adds (a : Nat) (b : Nat) : Bool := decide (a %s b)" % self.LEAN_OP[mp2.group(1)])
+        out.append("def pass2Sign : Int := %s" % ("1" if mp2.group(2) == "+=" else "-1"))
+        out.append('def pass2LoopOp : String := "%s"' % mw2.group(1))
         out.append("/-- C (lib/lpc/program/icode.c, switch_to_line): `%s`, the length written for a full run and the decrement -/" % m.group(0))
         out.append('def splitOp : String := "%s"' % m.group(1))
         out.append("def splitBound : Nat := %s" % m.group(2))
         out.append("def splitLen : Nat := %s" % m2[0])
         out.append("def splitDec : Nat := %s" % m3.group(1))
+        out.append("\n/-! the lexer's line arithmetic, transcribed statement by statement -/")
+        out += self.lexer_arithmetic()
         out.append("\n/-! the statements the model was written from, as they are in the source now -/")
-        for name, lines in self.source_statements():
+        for name, lines in self.source_statements() + self.source_statements2():
             out.append("def %s : List String := [\n  %s]" % (name, ",\n  ".join('"%s"' % l.replace("\\", "\\\\").replace('"', '\\"') for l in lines)))
         return "\n".join(out)
 
@@ -724,6 +1093,9 @@ class C18(Prop):
         t = open(self.conf).read()
         t = re.sub(r"(?m)^SimulEfunFile\s+\S+", "SimulEfunFile   /c18/simul_efun.c", t)
         open(self.conf, "w").write(t)
+        # second configuration: every compilation unit starts inside a global include file (cases with `mode ginc`)
+        self.conf_g = self.conf[:-5] + "-ginc.conf"
+        open(self.conf_g, "w").write(t + 'GlobalInclude   "/c18/ginc.h"\n')
 
     def canon(self, lines):
         # a recoverable UBSan `pointer-overflow` report of binaries.c:locate_in (`ADD (prog->inherit, prog)` on a program
@@ -733,7 +1105,13 @@ class C18(Prop):
                 and not (l.startswith("sanitizer ") and "binaries.c" in l and "pointer index expression" in l)]
 
     def run_impl(self, ctx, cases):
-        res = E.run_harness(self.exe, self.conf, cases, ctx.rundir, timeout=3000)
+        plain = [c for c in cases if "mode ginc" not in c.lines]
+        ginc = [c for c in cases if "mode ginc" in c.lines]
+        res = {}
+        if plain or not ginc:
+            res.update(E.run_harness(self.exe, self.conf, plain, ctx.rundir, timeout=3000))
+        if ginc:
+            res.update(E.run_harness(self.exe, self.conf_g, ginc, ctx.rundir, timeout=3000))
         self._last = (tuple(c.id for c in cases), tuple(len(c.lines) for c in cases), res)
         return res
 
@@ -758,15 +1136,29 @@ class C18(Prop):
 
     def generate(self, rng, n, tier):
         out = []
+        if tier in ("thorough", "search"):
+            # LARGE programs around the 16 bit boundaries of the tables, the failing statement behind every run:
+            # 64684 bytes of code, line tables of 65.7 KB (file_info[0] wrapped), 21.7 thousand runs, 96 file ids
+            out.append(E.Case("g-bigtable", case_bigtable("g_bigt", 43, 500, 0, binary=False, nincl=rng.range(96, 120)),
+                              {"fail": "div", "origin": "generated", "long": 1}))
+            # one element per line: line tables just below / just above / far above 65535 bytes with 40-60 KB of code
+            for i, nl in enumerate((21700 + rng.range(0, 60), 21850 + rng.range(0, 200), 23000 + rng.range(0, 6000))):
+                out.append(E.Case("g-manyruns%d" % i, case_manyruns("g_runs%d" % i, nl, per=rng.range(300, 420), tail=rng.range(0, 200),
+                                                                  binary=(i == 1)),
+                                  {"fail": "div", "origin": "generated", "long": 1}))
         for i in range(n):
             tag = "g%d_%d" % (rng.below(100000), i)
             if rng.chance(1, 14):
                 v = rng.choice(["again", "self", "back"])
                 out.append(E.Case("g%d" % i, case_multi_include(tag, v, rng), {"fail": "reinclude", "origin": "generated"}))
                 continue
+            if rng.chance(1, 40):
+                lines = case_overlap(tag, rng.choice(["main", "inc"]), rng.range(0, 400))
+                out.append(E.Case("g%d" % i, (["mode ginc"] if rng.chance(1, 3) else []) + lines, {"fail": "compile-error", "origin": "generated"}))
+                continue
             if rng.chance(1, 20):
                 out.append(E.Case("g%d" % i, case_init_pair(tag, pad=rng.range(0, 300)) if rng.chance(1, 3) else
-                                  case_init(tag, pad=rng.range(0, 300), funcs=rng.range(0, 4)),
+                                  case_init(tag, pad=rng.range(0, 300), funcs=rng.range(0, 4), sameline=rng.choice([False, False, True, 2])),
                                   {"fail": "init", "origin": "generated"}))
                 continue
             big = rng.chance(1, 12) if tier != "thorough" else rng.chance(1, 10)
@@ -782,7 +1174,7 @@ class C18(Prop):
             B.append(E.Case("b-" + name, lines, dict(meta, origin="boundary")))
 
         def gen(name, **kw):
-            g = Gen(rng, "b_" + name.replace("-", "_"))
+            g = Gen(rng, "b_" + name.replace("-", "_"), warn=kw.pop("warn", False), ginc=kw.pop("ginc", False))
             kw.setdefault("other", False)
             kw.setdefault("override", False)
             kw.setdefault("via", "apply")
@@ -804,7 +1196,7 @@ class C18(Prop):
             gen("lines%d" % n, fail_kind="div", depth=0, nchild=1, nbase=0, binary=False, prepad=("n", n))
         gen("lines40000-inc", fail_kind="error", depth=2, nchild=3, nbase=0, binary=True, prepad=("c", 40000))
         gen("fillers3000", fail_kind="index", depth=1, nchild=2, nbase=0, binary=False, prepad=("n", 1))
-        for k in ("funlit", "funlit2", "funlitml", "longwrap", "longarr", "multi"):
+        for k in ("funlit", "funlit2", "funlitml", "longwrap", "longarr", "multi", "macrodef", "macrouse", "strml"):
             gen("kind-" + k, fail_kind=k, depth=1, nchild=2, nbase=1, binary=True)
         # the failing statement / a call site on the LAST line of a file: with and without a newline at the end of the
         # file, trailing blank lines, a file that is one line, an #include as the last line of its parent
@@ -837,12 +1229,52 @@ class C18(Prop):
             gen("override-%d" % i, fail_kind=k, depth=i, bdepth=1, nchild=2, nbase=2, binary=(i != 1), override=True)
             gen("other-inh-%d" % i, fail_kind=k, depth=1, bdepth=i % 2, nchild=2, nbase=2, binary=(i != 0), other=True)
         gen("other-plain", fail_kind="funlitml", depth=2, nchild=3, nbase=0, binary=True, other=True)
-        g = Gen(rng, "b_wide")
+        # compile-time diagnostics on known lines: main file, include levels 1..3 (going down and after the return),
+        # inherited program, other object, with a saved binary (second load does not compile: no second report)
+        for i, kw in enumerate((dict(depth=0, nchild=2, nbase=0), dict(depth=1, nchild=3, nbase=0), dict(depth=3, nchild=4, nbase=0),
+                                dict(depth=2, nchild=3, nbase=2, bdepth=1), dict(depth=1, nchild=2, nbase=1, bdepth=2, other=True),
+                                dict(depth=2, nchild=3, nbase=1, bdepth=1, binary=True),
+                                dict(depth=3, nchild=4, nbase=0, prepad=("n", 300), tails=["nonl", "nonl", "nonl", "nonl"]))):
+            kw.setdefault("binary", False)
+            gen("warn-%d" % i, fail_kind=("div", "error")[i % 2], warn=True, **kw)
+        # every compilation unit starts inside the global include file (zero-length first segment of the main file)
+        for i, kw in enumerate((dict(depth=0, nchild=1, nbase=0), dict(depth=2, nchild=3, nbase=0, fail_slot=2),
+                                dict(depth=1, nchild=2, nbase=2, bdepth=1, binary=True), dict(depth=1, nchild=2, nbase=1, other=True),
+                                dict(depth=0, nchild=1, nbase=0, prepad=("n", 40000)), dict(depth=3, nchild=4, nbase=0, warn=True,
+                                                                                             tails=["oneline-nonl"] * 4))):
+            kw.setdefault("binary", False)
+            gen("ginc-%d" % i, fail_kind=("div", "error", "funlit")[i % 3], ginc=True, **kw)
+        mk("overlap-main", case_overlap("b_ovl_main"), fail="compile-error")
+        mk("overlap-main-far", case_overlap("b_ovl_far", pad=300), fail="compile-error")
+        mk("overlap-include", case_overlap("b_ovl_inc", where="inc", pad=4), fail="compile-error")
+        mk("overlap-include-ginc", ["mode ginc"] + case_overlap("b_ovl_ginc", where="inc", pad=11), fail="compile-error")
+        # 16 bit limits of the tables: code just below 65535 bytes whose line tables are LARGER than 64 KB (file_info[0]
+        # wraps; 120 inclusions add segments without code), and a program beyond 65535 bytes (must be refused)
+        # include nesting: deepest chain the lexer accepts, and one level more (refused with a compile error)
+        mk("include-depth-5", case_deep_include("b_deep5", 5), fail="div")
+        mk("include-depth-max", case_deep_include("b_deepmax", 31, rng), fail="div")
+        mk("include-depth-max-ginc", ["mode ginc"] + case_deep_include("b_deepmaxg", 30), fail="div")
+        mk("include-depth-refused", case_deep_include("b_deepref", 32, refuse=True), fail="compile-error")
+        # line tables around 65535 bytes (file_info[0], their size, is an unsigned short): 21 000 / 21 900 / 22 600 runs with
+        # about 22 KB of code; the failing statement is the last code of the program
+        mk("long-file-name", case_longname("b_longname", 250), fail="div")
+        mk("long-include-name", case_longname("b_longinc", 244, include=True), fail="div")
+        mk("manyruns-3000", case_manyruns("b_runs3k", 3000, tail=50), fail="div", long=1)
+        mk("manyruns-below-64k", case_manyruns("b_runs21k", 21000, tail=20), fail="div", long=1)
+        mk("manyruns-above-64k", case_manyruns("b_runs22k", 21900, tail=100), fail="div", long=1)
+        mk("bigtable-12k", case_bigtable("b_bigt12", 8, 500, 40, nincl=10), fail="div", long=1)
+        mk("program-too-large", case_toolarge("b_toolarge"), fail="compile-error")
+        mk("ginc-init", ["mode ginc"] + case_init("b_ginc_init", pad=5, funcs=1), fail="init")
+        mk("ginc-multi-include", ["mode ginc"] + case_multi_include("b_ginc_mi", "back"), fail="reinclude")
+        g = Gen(rng, "b_wide", warn=False, ginc=False)
         mk("wide70000", g.build(fail_kind="div", depth=0, nchild=1, nbase=0, binary=False, prepad=("n", 70000), kind="wide",
                                 other=False, override=False, via="apply", rep=1),
            **g.meta)
         mk("init", case_init("b_init"), fail="init")
         mk("init-after-functions", case_init("b_init2", pad=40, funcs=3), fail="init")
+        mk("init-same-line-as-function", case_init("b_init5", pad=4, funcs=1, sameline=True), fail="init")
+        mk("init-same-line-only", case_init("b_init6", pad=0, funcs=0, sameline=True), fail="init")
+        mk("init-same-line-twice", case_init("b_init7", pad=2, funcs=1, sameline=2), fail="init")
         mk("init-after-other-compile", case_init_pair("b_init3", pad=3), fail="init")
         mk("init-after-other-compile-far", case_init_pair("b_init4", pad=300), fail="init")
         for v in ("again", "self", "back"):
@@ -863,7 +1295,8 @@ class C18(Prop):
     def histogram(self, cases, impl):
         h = {"binary_all_reloaded_from_binary": 0, "binary_some_recompiled": 0, "fail": {}, "calls": {}, "depth": {}, "slots": {}, "inherit": 0, "binary": 0, "caught": 0, "long": 0,
              "maxline_ge_255": 0, "maxline_ge_32768": 0, "eh_lines": 0, "other": 0, "override": 0,
-             "lastline": {}, "files_without_final_newline": 0, "via": {}, "rep": {}}
+             "lastline": {}, "files_without_final_newline": 0, "via": {}, "rep": {}, "compile_diagnostics_placed": 0,
+             "dump_trace_lines": 0, "global_include": 0}
         for c in cases:
             m = c.meta
             if "fail" in m:
@@ -890,6 +1323,9 @@ class C18(Prop):
             if m.get("maxline", 0) >= 32768:
                 h["maxline_ge_32768"] += 1
             h["eh_lines"] += sum(1 for l in impl.get(c.id, []) if l.startswith("eh "))
+            h["compile_diagnostics_placed"] += m.get("ce", 0)
+            h["global_include"] += 1 if "mode ginc" in c.lines else 0
+            h["dump_trace_lines"] += sum(l.count("|") + 1 for l in impl.get(c.id, []) if l.startswith("dt ") and not l.endswith(" -"))
             if m.get("binary"):
                 evs = [l.split()[1] for l in impl.get(c.id, []) if l.startswith("ev ")]
                 h["binary_all_reloaded_from_binary" if len(evs) == len(set(evs)) else "binary_some_recompiled"] += 1
